@@ -35,6 +35,8 @@ def mutations(lib, rep):
     yield L('(c) captures_len: `*n_groups` -> `*n_groups + 1`', 'RegexImpl::Fancy { n_groups, .. } => *n_groups,', 'RegexImpl::Fancy { n_groups, .. } => *n_groups + 1,', 'c')
     yield L('(d) capture_names: off by one, `names[i + 1] = …`', 'names[i] = Some(name.as_str());', 'names[i + 1] = Some(name.as_str());', 'd')
     yield L('(e) Captures::get: the start read from `saves[slot + 1]`', '                let lo = saves[slot];', '                let lo = saves[slot + 1];', 'e')
+    yield L('(e2) Captures::get: the F22 repair reverted (`i.checked_mul(2)` -> `i * 2`: wraps / panics for i >= 2^63)',
+            '                let slot = match i.checked_mul(2) {\n                    Some(slot) => slot,\n                    None => return None,\n                };\n', '                let slot = i * 2;\n', 'e2')
     yield L('(f) Captures::name: `self.get(*i)` -> `self.get(*i + 1)`', '.and_then(|i| self.get(*i))', '.and_then(|i| self.get(*i + 1))', 'f')
     yield L('(g) builder: `backtrack_limit` writes `delegate_size_limit`', '        self.0.backtrack_limit = limit;', '        self.0.delegate_size_limit = Some(limit);', 'g')
     yield ('(h) no_expansion: the `$` test inverted', {'replacer.rs': once(rep, "if s.contains('$') {", "if !s.contains('$') {", 'h')})
@@ -51,14 +53,14 @@ def mutations(lib, rep):
     yield L('(control) new_options: the fields of the returned `Regex { .. }` written in the other order (same meaning)',
             '        Ok(Regex {\n            inner: RegexImpl::Fancy {\n                prog,\n                n_groups: info.end_group,\n                options,\n            },\n            named_groups: Arc::new(tree.named_groups),\n        })',
             '        Ok(Regex {\n            named_groups: Arc::new(tree.named_groups),\n            inner: RegexImpl::Fancy {\n                prog,\n                n_groups: info.end_group,\n                options,\n            },\n        })', 's')
-    yield L('(control) comments and blank lines added (same meaning)', '                let slot = i * 2;\n', '                // two slots per group\n\n                let slot = /* start */ i * 2;\n', 't')
+    yield L('(control) comments and blank lines added (same meaning)', '                let slot = match i.checked_mul(2) {\n', '                // two slots per group\n\n                let slot = /* start */ match i.checked_mul(2) {\n', 't')
     yield L('(control) RegexOptions::default: two fields swapped in the literal (same meaning)',
             '            backtrack_limit: 1_000_000,\n            delegate_size_limit: None,\n', '            delegate_size_limit: None,\n            backtrack_limit: 1_000_000,\n', 'u')
     # ---- the widened subset
     yield L('(control) Captures::get: the local `slot` renamed to `order` (a name the generated code uses itself: renamed apart; same meaning)',
-            '                let slot = i * 2;\n                if slot >= saves.len() {\n                    return None;\n                }\n                let lo = saves[slot];\n                if lo == usize::MAX {\n                    return None;\n                }\n                let hi = saves[slot + 1];',
-            '                let order = i * 2;\n                if order >= saves.len() {\n                    return None;\n                }\n                let lo = saves[order];\n                if lo == usize::MAX {\n                    return None;\n                }\n                let hi = saves[order + 1];', 'w1')
-    yield L('(control) Captures::get: `let slot: usize = i * 2;` (type annotation, same meaning)', '                let slot = i * 2;\n', '                let slot: usize = i * 2;\n', 'w2')
+            '                let slot = match i.checked_mul(2) {\n                    Some(slot) => slot,\n                    None => return None,\n                };\n                if slot >= saves.len() {\n                    return None;\n                }\n                let lo = saves[slot];\n                if lo == usize::MAX {\n                    return None;\n                }\n                let hi = saves[slot + 1];',
+            '                let order = match i.checked_mul(2) {\n                    Some(order) => order,\n                    None => return None,\n                };\n                if order >= saves.len() {\n                    return None;\n                }\n                let lo = saves[order];\n                if lo == usize::MAX {\n                    return None;\n                }\n                let hi = saves[order + 1];', 'w1')
+    yield L('(control) Captures::get: `let slot: usize = match …;` (type annotation, same meaning)', '                let slot = match i.checked_mul(2) {\n', '                let slot: usize = match i.checked_mul(2) {\n', 'w2')
     yield L('(w) find (VM path): the start capped from below, `saves[0].max(pos)` (seeded C09/d without its vm.rs half)',
             'Match::new(text, saves[0], saves[1])', 'Match::new(text, saves[0].max(pos), saves[1])', 'w3')
     yield L('(x) capture_names: `Vec::with_capacity` and a `resize` on demand instead of `resize(self.captures_len(), None)` (seeded C16/g)',
